@@ -36,6 +36,11 @@ ASSUMPTIONS = [
     "numpy.repeat, rlencode on 2-d input against numpy.repeat along axis 1",
     "copy(): values, format and order of indices are judged; memory aliasing is only recorded "
     "as an observation class",
+    "dtype axis: operands of dtype bool, int32, int64, float64 (fractional values), complex128 in "
+    "every order wherever several arrays are combined; reference = dense numpy with numpy's "
+    "promotion (np.vstack / np.block / np.diag of the dense blocks), compared on values in "
+    "complex128; merge_matrices is compared with the dense in-place assignment A[lines] = B, which "
+    "keeps the dtype of A (complex into real is skipped); index arrays are passed as int32 and int64",
     "purity: every argument of every utility must be bitwise unchanged by the call (ndarray bytes; "
     "sparse data/indices/indptr/format/shape), except the first argument of the documented in-place "
     "functions zero_rows, zero_columns, merge_matrices, stack_mat; for the *_from_sparse_blocks "
@@ -46,7 +51,8 @@ BOUNDS = {
     "repetition up to length 3; merge: all B patterns; stacks: second operand r*c <= 4; "
     "sparse blocks: 1-3 blocks out of the 26 patterns of shapes <= 2x2; dense blocks: "
     "size, count <= 4; rldecode: length <= 4, counts 0..3; expand_index_pointers: length <= 3, "
-    "bounds 0..3; block_diag_index: <= 3 blocks of size 1..3",
+    "bounds 0..3; block_diag_index: <= 3 blocks of size 1..3; dtype axis: 5 dtypes, all ordered "
+    "pairs and triples of block dtypes over 4 (pairs) / 2x2x2 (triples) block patterns x 3 formats",
     "thorough": "same with all 682 patterns of shapes up to 3 x 3 (merge: 3x3 included)",
 }
 MIN_CLASSES = 20
@@ -87,6 +93,11 @@ def cases(tier):
         out.append({"fn": "eip", "L": L})
     out.append({"fn": "expand"})
     out.append({"fn": "bdi"})
+    # dtype axis: wherever several arrays / matrices are combined
+    for i in range(len(DTYPES)):
+        out.append({"fn": "dt_blocks", "first_dtype": i})
+    out.append({"fn": "dt_stack"})
+    out.append({"fn": "dt_misc"})
     return out
 
 
@@ -174,6 +185,7 @@ def _call(rec, tag, fn, *args, pure=None, **detail):
 def _index_args(n):
     seqs = G.ordered_subsets(n, repeat_len=3)
     args = [("seq", s) for s in seqs]
+    args += [("seq32", s) for s in G.ordered_subsets(n)]  # same index sets as int32 arrays
     args += [("mask", list(m)) for m in itertools.product([False, True], repeat=n)]
     args += [("int", i) for i in range(n)]
     return args
@@ -192,7 +204,10 @@ def run_slice(case, out):
         mnt = _mat_nontrivial(r, c, mask, z, order, fmt)
         for kind, a in args:
             if kind == "seq":
-                ind = np.array(a, dtype=int)
+                ind = np.array(a, dtype=np.int64)
+                sel = a
+            elif kind == "seq32":
+                ind = np.array(a, dtype=np.int32)
                 sel = a
             elif kind == "mask":
                 ind = np.array(a, dtype=bool)
@@ -200,10 +215,10 @@ def run_slice(case, out):
             else:
                 ind = int(a)
                 sel = [a]
-            ident = kind == "seq" and sel == list(range(n))
+            ident = kind in ("seq", "seq32") and sel == list(range(n))
             key = ("slice", r, c, mask, z, fmt, order, kind, tuple(a) if kind != "int" else a) if (mnt or not ident) else None
-            acls = kind if kind != "seq" else ("seq-empty" if not sel else "seq-rep" if len(set(sel)) < len(sel)
-                                              else "seq-sorted" if sel == sorted(sel) else "seq-unsorted")
+            acls = kind if kind not in ("seq", "seq32") else ("seq-empty" if not sel else "seq-rep" if len(set(sel)) < len(sel)
+                                              else "seq-sorted" if sel == sorted(sel) else "seq-unsorted") + ("/int32" if kind == "seq32" else "")
             A = G.build(r, c, mask, z, fmt, order)
             det = dict(matrix=_desc(r, c, mask, z, fmt, order), index=a, index_kind=kind)
             # --- slice_sparse_matrix
@@ -267,13 +282,15 @@ def run_zero(case, out):
     fn = mo.zero_rows if fmt == "csr" else mo.zero_columns
     name = "zero_rows" if fmt == "csr" else "zero_columns"
     wrong = mo.zero_columns if fmt == "csr" else mo.zero_rows
-    args = [("seq", s) for s in G.ordered_subsets(n)] + [("int", i) for i in range(n)]
+    args = ([("seq", s) for s in G.ordered_subsets(n)] + [("seq32", s) for s in G.ordered_subsets(n)]
+            + [("int", i) for i in range(n)])
     for mask, z, order in _mats(case):
         D = G.dense(r, c, mask, z)
         mnt = _mat_nontrivial(r, c, mask, z, order, fmt)
         for kind, a in args:
-            sel = a if kind == "seq" else [a]
-            arg = np.array(a, dtype=int) if kind == "seq" else int(a)
+            sel = a if kind != "int" else [a]
+            arg = (np.array(a, dtype=np.int64) if kind == "seq" else np.array(a, dtype=np.int32) if kind == "seq32"
+                   else int(a))
             A = G.build(r, c, mask, z, fmt, order)
             ip, ix = A.indptr.copy(), A.indices.copy()
             exp = D.copy()
@@ -849,7 +866,268 @@ def run_bdi(case, out):
                 out.ev(cls, ("bdi2", m, n) if L > 1 else None)
 
 
+# ------------------------------------------------------------------------------ dtype axis
+
+DTYPES = ("bool", "int32", "int64", "float64", "complex128")
+
+
+def _dense_dt(r, c, mask, dt, base=0):
+    """Dense block of dtype ``dt``: True / integers / integers + 0.25 / integers + 0.5j."""
+    D = np.zeros((r, c), dtype=dt)
+    for i in range(r):
+        for j in range(c):
+            if mask & (1 << (i * c + j)):
+                v = base + 1 + i * c + j
+                D[i, j] = True if dt == "bool" else v if dt.startswith("int") else v + 0.25 if dt == "float64" else v + 0.5j
+    return D
+
+
+def _build_dt(D, mask, fmt):
+    """Sparse matrix of the dtype of D storing exactly the positions of ``mask``."""
+    r, c = D.shape
+    rows = [i for i in range(r) for j in range(c) if mask & (1 << (i * c + j))]
+    cols = [j for i in range(r) for j in range(c) if mask & (1 << (i * c + j))]
+    vals = np.array([D[i, j] for i, j in zip(rows, cols)], dtype=D.dtype)
+    M = sps.coo_matrix((vals, (np.array(rows, dtype=np.int32), np.array(cols, dtype=np.int32))), shape=(r, c), dtype=D.dtype)
+    return M if fmt == "coo" else M.asformat(fmt)
+
+
+def _same_values(M, exp):
+    """Values of a sparse result equal the dense numpy reference (numpy promotion), compared in
+    complex128 so that any lost precision (truncated fraction, dropped imaginary part, ints
+    collapsed to bool) shows."""
+    if not sps.issparse(M) or G.is_wellformed(M) is not None or tuple(M.shape) != exp.shape:
+        return False
+    return bool(np.array_equal(np.asarray(M.toarray()).astype(np.complex128), exp.astype(np.complex128)))
+
+
+def _dt_cls(dts):
+    return "same" if len(set(dts)) == 1 else "first-narrower" if np.result_type(*dts) != np.dtype(dts[0]) else "first-widest"
+
+
+def run_dt_blocks(case, out):
+    """Block lists with mixed dtypes in every order: sparse blocks, dia blocks."""
+    from porepy.numerics.linalg import matrix_operations as mo
+
+    rec = _Rec(out)
+    d0 = DTYPES[case["first_dtype"]]
+    pats = [(1, 1, 0b1), (1, 2, 0b11), (2, 1, 0b11), (2, 2, 0b1011)]
+    seqs = []
+    for p0 in pats:
+        for p1 in pats:
+            for d1 in DTYPES:
+                seqs.append(((p0, p1), (d0, d1)))
+    for p0 in pats[2:]:
+        for p1 in pats[1:3]:
+            for p2 in pats[:2]:
+                for d1 in DTYPES:
+                    for d2 in DTYPES:
+                        seqs.append(((p0, p1, p2), (d0, d1, d2)))
+    for blocks, dts in seqs:
+        dens = [_dense_dt(r, c, m, dt, base=10 * (i + 1)) for i, ((r, c, m), dt) in enumerate(zip(blocks, dts))]
+        R, C = sum(d.shape[0] for d in dens), sum(d.shape[1] for d in dens)
+        exp = np.zeros((R, C), dtype=np.result_type(*dts))
+        i = j = 0
+        for d in dens:
+            exp[i: i + d.shape[0], j: j + d.shape[1]] = d
+            i, j = i + d.shape[0], j + d.shape[1]
+        for fmt in ("csr", "csc", "coo"):
+            for target, fn in (("csr", mo.csr_matrix_from_sparse_blocks), ("csc", mo.csc_matrix_from_sparse_blocks)):
+                real = [_build_dt(d, m, fmt) for d, (_, _, m) in zip(dens, blocks)]
+                originals, dig = list(real), [G.digest(b) for b in real]
+                det = dict(blocks=[np.asarray(d).astype(np.complex128).real.tolist() for d in dens], dtypes=list(dts),
+                           block_format=fmt, target=target)
+                ok, M = _call(rec, target + "_from_sparse_blocks/dtype", fn, real, pure=(), **det)
+                cls = f"dtype/sparse_blocks/{target}/n{len(blocks)}/{_dt_cls(dts)}"
+                if ok:
+                    bad = None
+                    if [G.digest(b) for b in originals] != dig:
+                        bad = "a block was modified"
+                    elif not sps.issparse(M) or M.format != target:
+                        bad = "result is not a %s matrix" % target
+                    elif not _same_values(M, exp):
+                        bad = "values differ from the dense block diagonal matrix under numpy promotion (result dtype %s)" % M.dtype
+                    if bad:
+                        rec.bad(target + "_from_sparse_blocks/dtype", f"{target}_matrix_from_sparse_blocks: " + bad,
+                                expected=_cjson(exp), observed=_obs_c(M), **det)
+                        cls = "VIOLATION"
+                else:
+                    cls = "VIOLATION"
+                out.ev(cls, ("dtsb", blocks, dts, fmt, target) if len(set(dts)) > 1 else None)
+    # diagonal blocks of mixed dtypes
+    for L in (2, 3):
+        for rest in itertools.product(DTYPES, repeat=L - 1):
+            dts = (d0,) + rest
+            vals = [np.diag(_dense_dt(s, s, (1 << (s * s)) - 1, dt, base=10 * b)).copy() for b, (s, dt) in enumerate(zip((2, 1, 2), dts))]
+            blocks = [sps.dia_matrix((v.reshape(1, -1).copy(), [0]), shape=(v.size, v.size), dtype=v.dtype) for v in vals]
+            exp = np.diag(np.concatenate(vals))
+            det = dict(dtypes=list(dts), diagonals=[_cjson(v) for v in vals])
+            ok, M = _call(rec, "sparse_dia_from_sparse_blocks/dtype", mo.sparse_dia_from_sparse_blocks, blocks, **det)
+            cls = f"dtype/dia_blocks/n{L}/{_dt_cls(dts)}"
+            if ok:
+                if not _same_values(M, exp):
+                    rec.bad("sparse_dia_from_sparse_blocks/dtype", "sparse_dia_from_sparse_blocks: values differ from numpy.diag of the "
+                            "concatenated diagonals under numpy promotion", expected=_cjson(exp), observed=_obs_c(M), **det)
+                    cls = "VIOLATION"
+            else:
+                cls = "VIOLATION"
+            out.ev(cls, ("dtdia", dts) if len(set(dts)) > 1 else None)
+
+
+def _cjson(a):
+    a = np.asarray(a)
+    if np.iscomplexobj(a):
+        return [np.real(a).tolist(), np.imag(a).tolist()]
+    return a.astype(float).tolist()
+
+
+def _obs_c(M):
+    if not sps.issparse(M) or G.is_wellformed(M) is not None:
+        return _obs(M)
+    return {"dtype": str(M.dtype), "values": _cjson(M.toarray())}
+
+
+def run_dt_stack(case, out):
+    """stack_mat, stack_diag, merge_matrices with operands of different dtypes."""
+    from porepy.numerics.linalg import matrix_operations as mo
+
+    rec = _Rec(out)
+    for da in DTYPES:
+        for db in DTYPES:
+            for fmt in FMTS:
+                DA = _dense_dt(2, 2, 0b1011, da)
+                # --- stacks: dense reference = numpy.vstack / hstack / block (promotion)
+                for diag in (False, True):
+                    shapes_b = [(1, 2) if fmt == "csr" else (2, 1)] if not diag else [(1, 2), (2, 1), (2, 2)]
+                    for br, bc in shapes_b:
+                        bm = (1 << (br * bc)) - 1 - (1 if br * bc == 4 else 0)
+                        DB = _dense_dt(br, bc, bm, db, base=20)
+                        A, B = _build_dt(DA, 0b1011, fmt), _build_dt(DB, bm, fmt)
+                        det = dict(A=_cjson(DA), B=_cjson(DB), dtypes=[da, db], format=fmt)
+                        if diag:
+                            exp = np.zeros((2 + br, 2 + bc), dtype=np.result_type(da, db))
+                            exp[:2, :2], exp[2:, 2:] = DA, DB
+                            ok, C = _call(rec, "stack_diag/dtype", mo.stack_diag, A, B, **det)
+                            name = "stack_diag"
+                        else:
+                            exp = np.vstack((DA, DB)) if fmt == "csr" else np.hstack((DA, DB))
+                            ok, _ = _call(rec, "stack_mat/dtype", mo.stack_mat, A, B, pure=(1,), **det)
+                            C, name = A, "stack_mat"
+                        cls = f"dtype/{name}/{fmt}/{_dt_cls((da, db))}"
+                        if ok:
+                            if not _same_values(C, exp):
+                                rec.bad(name + "/dtype", f"{name}: values differ from dense stacking under numpy promotion",
+                                        expected=_cjson(exp), observed=_obs_c(C), **det)
+                                cls = "VIOLATION"
+                        else:
+                            cls = "VIOLATION"
+                        out.ev(cls, ("dtst", name, da, db, fmt, br, bc) if da != db else None)
+                # --- merge: dense reference = in-place assignment A[lines] = B, which keeps the
+                # dtype of A (numpy casts B); complex into real is not tried (numpy warns and drops)
+                if db == "complex128" and da != "complex128":
+                    out.ev("skipped:complex-into-real")
+                    continue
+                for lines in ([0], [1], [0, 1], [1, 0]):
+                    for ldt in (np.int32, np.int64):
+                        k = len(lines)
+                        br, bc = (k, 2) if fmt == "csr" else (2, k)
+                        bm = (1 << (br * bc)) - 1 - (2 if br * bc == 4 else 0)
+                        DB = _dense_dt(br, bc, bm, db, base=20)
+                        A, B = _build_dt(DA, 0b1011, fmt), _build_dt(DB, bm, fmt)
+                        exp = DA.copy()
+                        with np.errstate(all="ignore"):
+                            if fmt == "csr":
+                                exp[lines, :] = DB
+                            else:
+                                exp[:, lines] = DB
+                        det = dict(A=_cjson(DA), B=_cjson(DB), dtypes=[da, db], format=fmt, lines=lines,
+                                   lines_dtype=np.dtype(ldt).name)
+                        ok, _ = _call(rec, "merge_matrices/dtype", mo.merge_matrices, A, B, np.array(lines, dtype=ldt), fmt,
+                                      pure=(1, 2, 3), **det)
+                        cls = f"dtype/merge/{fmt}/{_dt_cls((da, db))}/{np.dtype(ldt).name}"
+                        if ok:
+                            if not _same_values(A, exp):
+                                rec.bad("merge_matrices/dtype", "merge_matrices: values differ from the dense in-place assignment "
+                                        "A[lines] = B (dtype of A)", expected=_cjson(exp), observed=_obs_c(A), **det)
+                                cls = "VIOLATION"
+                        else:
+                            cls = "VIOLATION"
+                        out.ev(cls, ("dtmg", da, db, fmt, tuple(lines), np.dtype(ldt).name) if da != db or ldt is np.int32 else None)
+
+
+def run_dt_misc(case, out):
+    """Single-matrix utilities on every dtype: nothing may be truncated."""
+    from porepy.numerics.linalg import matrix_operations as mo
+
+    rec = _Rec(out)
+    for dt in DTYPES:
+        for fmt in ("csr", "csc", "coo"):
+            D = _dense_dt(2, 3, 0b101101, dt)
+            det = dict(matrix=_cjson(D), dtype=dt, format=fmt)
+            for nd in (1, 2, 3):
+                A = _build_dt(D, 0b101101, fmt)
+                ok, Kp = _call(rec, "sparse_kronecker_product/dtype", mo.sparse_kronecker_product, A, nd, **det)
+                cls = f"dtype/kron/{dt}/nd{nd}"
+                if ok:
+                    if not _same_values(Kp, np.kron(D, np.eye(nd))):
+                        rec.bad("sparse_kronecker_product/dtype", "sparse_kronecker_product differs from numpy.kron(A, eye(nd))",
+                                nd=nd, observed=_obs_c(Kp), **det)
+                        cls = "VIOLATION"
+                else:
+                    cls = "VIOLATION"
+                out.ev(cls, ("dtkron", dt, fmt, nd))
+            for name, fn in (("copy", mo.copy), ("optimized_compressed_storage", mo.optimized_compressed_storage)):
+                A = _build_dt(D, 0b101101, fmt)
+                ok, C = _call(rec, name + "/dtype", fn, A, **det)
+                cls = f"dtype/{name}/{dt}"
+                if ok:
+                    if not _same_values(C, D):
+                        rec.bad(name + "/dtype", name + ": values changed", observed=_obs_c(C), **det)
+                        cls = "VIOLATION"
+                else:
+                    cls = "VIOLATION"
+                out.ev(cls, ("dt" + name, dt, fmt))
+            if fmt != "coo":
+                n = 2 if fmt == "csr" else 3
+                for ind in ([n - 1, 0], [0]):
+                    for idt in (np.int32, np.int64):
+                        A = _build_dt(D, 0b101101, fmt)
+                        exp = D[ind, :] if fmt == "csr" else D[:, ind]
+                        ok, S = _call(rec, "slice_sparse_matrix/dtype", mo.slice_sparse_matrix, A, np.array(ind, dtype=idt), **det)
+                        cls = f"dtype/slice/{dt}/{np.dtype(idt).name}"
+                        if ok:
+                            if not _same_values(S, exp):
+                                rec.bad("slice_sparse_matrix/dtype", "slice_sparse_matrix: values differ from dense slicing",
+                                        index=ind, observed=_obs_c(S), **det)
+                                cls = "VIOLATION"
+                        else:
+                            cls = "VIOLATION"
+                        out.ev(cls, ("dtslice", dt, fmt, tuple(ind), np.dtype(idt).name))
+        # dense blocks: one data array of this dtype
+        for bs, nb in ((1, 2), (2, 2), (3, 1), (2, 3)):
+            base = np.arange(1, bs * bs * nb + 1)
+            data = (base % 2 == 1) if dt == "bool" else base.astype(dt) + (0.25 if dt == "float64" else 0.5j if dt == "complex128" else 0)
+            data = np.asarray(data, dtype=dt)
+            blocks = [data[b * bs * bs: (b + 1) * bs * bs].reshape(bs, bs) for b in range(nb)]
+            for target, fn, tr in (("csr", mo.csr_matrix_from_dense_blocks, False), ("csc", mo.csc_matrix_from_dense_blocks, True)):
+                exp = np.zeros((bs * nb, bs * nb), dtype=dt)
+                for b, blk in enumerate(blocks):
+                    exp[b * bs: (b + 1) * bs, b * bs: (b + 1) * bs] = blk.T if tr else blk
+                det = dict(dtype=dt, block_size=bs, num_blocks=nb, target=target)
+                ok, M = _call(rec, target + "_from_dense_blocks/dtype", fn, data.copy(), bs, nb, **det)
+                cls = f"dtype/dense_blocks/{target}/{dt}"
+                if ok:
+                    if not _same_values(M, exp):
+                        rec.bad(target + "_from_dense_blocks/dtype", f"{target}_matrix_from_dense_blocks: values differ",
+                                expected=_cjson(exp), observed=_obs_c(M), **det)
+                        cls = "VIOLATION"
+                else:
+                    cls = "VIOLATION"
+                out.ev(cls, ("dtdb", dt, bs, nb, target))
+
+
 RUN = {
+    "dt_blocks": run_dt_blocks, "dt_stack": run_dt_stack, "dt_misc": run_dt_misc,
     "slice": run_slice, "zero": run_zero, "merge": run_merge, "stack": run_stack, "misc": run_misc,
     "sparse_blocks": run_sparse_blocks, "dense_blocks": run_dense_blocks, "dia_blocks": run_dia_blocks,
     "rle": run_rle, "eip": run_eip, "expand": run_expand, "bdi": run_bdi,
